@@ -54,6 +54,8 @@ MODELS = {
     "CNFGTR": ("codon", "conditional", "state", GTR_P + ["omega"]),
     "CNFHKY": ("codon", "conditional", "state", ["kappa", "omega"]),
     "GNC": ("codon", None, "state", GN_P + ["omega"]),
+    "MG94HKY:gc2": ("codon:2", "monomer", "nuc", ["kappa", "omega"]),      # vertebrate mitochondrial code
+    "GY94:gc2": ("codon:2", "tuple", "state", ["kappa", "omega"]),
     "JTT92": ("protein", "tuple", "state", []),
     "DSO78": ("protein", "tuple", "state", []),
     "WG01": ("protein", "tuple", "state", []),
@@ -99,6 +101,8 @@ def make_model(case):
                                                 mprob_model="tuple", name=name, **kw)
         return SM.TimeReversibleDinucleotide(predicates=[kappa, cpg], recode_gaps=True, model_gaps=False,
                                              mprob_model=kind, name=name, **kw)
+    if name.endswith(":gc2"):
+        return get_model(name.split(":")[0], gc=2, **kw)
     return get_model(name, **kw)
 
 
@@ -113,6 +117,8 @@ def _rule_edges(tree, scope):
         stem = bool(scope.get("stem", False))
         clade = scope.get("clade")
         clade = (not stem) if clade is None else bool(clade)
+        if scope.get("outgroup_name"):
+            return S.scope_edges_outgroup(tree, a, b, scope["outgroup_name"], clade=clade, stem=stem)[0]
         return S.scope_edges(tree, a, b, clade=clade, stem=stem)
     return S.edge_names(tree)
 
@@ -139,6 +145,7 @@ class Expected:
         self.bprobs = [1.0 / len(self.bins)] * len(self.bins)
         self.rate_shape = 1.0
         self.rate_partition = [1.0 / len(self.bins)] * len(self.bins)
+        self.factor_partition = {}
         self.exchange = None
         if self.family == "protein":
             self.exchange, default_pi = _protein_data(case["model"])
@@ -170,6 +177,8 @@ class Expected:
             self.rate_partition = [float(v) for v in value]
         elif par == "mprobs":
             self.pi = dict(value)
+        elif par.endswith("_factor_partition"):
+            self.factor_partition[par[:-len("_factor_partition")]] = [float(v) for v in value]
         else:
             assert par in self.pnames, par
             bins = [scope["bin"]] if "bin" in scope else (list(scope["bins"]) if "bins" in scope else self.bins)
@@ -185,8 +194,22 @@ class Expected:
             return list(S.gamma_median_rates(self.rate_shape, self.bprobs))
         return list(S.monotonic_rates(self.rate_partition, self.bprobs))
 
+    def factor(self, p, b):
+        """a parameter split across bins is (per-edge value) x (bin factor); the factors have bin-probability
+        weighted mean one; for the ordered parameter they are cumulative sums (increasing)"""
+        mkw = self.case.get("mkw") or {}
+        if len(self.bins) == 1 or p not in self.factor_partition:
+            return 1.0
+        part = self.factor_partition[p]
+        if mkw.get("ordered_param") == p:
+            f = S.monotonic_rates(part, self.bprobs)
+        else:
+            v = numpy.asarray(part, float)
+            f = v / (v * numpy.asarray(self.bprobs)).sum()
+        return float(f[self.bins.index(b)])
+
     def q(self, edge, b, cache):
-        key = tuple(self.par[(p, edge, b)] for p in self.pnames)
+        key = tuple(self.par[(p, edge, b)] * self.factor(p, b) for p in self.pnames)
         if key not in cache:
             cache[key] = S.rate_matrix(self.family, self.weighting, self.pi, dict(zip(self.pnames, key)),
                                        exchange=self.exchange)
@@ -243,10 +266,15 @@ def build_lf(case):
     order = case.get("seq_order")
     if order:
         rows = {k: rows[k] for k in order}
-    aln = make_aligned_seqs(rows, moltype="protein" if fam == "protein" else "dna")
-    lf.set_alignment(aln)
-    if case.get("pi") and case.get("pi_via", "lf") == "lf" and MODELS[case["model"]][2] != "equal":
+    aln = make_aligned_seqs(rows, moltype="protein" if fam == "protein" else "dna",
+                            array_align=case.get("aln_class", "array") == "array")
+    set_pi = case.get("pi") and case.get("pi_via", "lf") == "lf" and MODELS[case["model"]][2] != "equal"
+    if case.get("aln_first"):
+        lf.set_alignment(aln)
+    if set_pi:
         lf.set_motif_probs(dict(case["pi"]))
+    if not case.get("aln_first"):
+        lf.set_alignment(aln)
     for rule in case.get("rules", []):
         apply_rule(lf, rule)
     return lf, rows
@@ -257,7 +285,7 @@ def apply_rule(lf, rule):
     kw = {k: v for k, v in scope.items() if k != "independent"}
     if "independent" in scope:
         kw["is_independent"] = scope["independent"]
-    if par in ("bprobs", "rate_partition"):
+    if par in ("bprobs", "rate_partition") or par.endswith("_factor_partition"):
         lf.set_param_rule(par, init=numpy.array(value, float), **kw)
     elif par == "mprobs":
         lf.set_motif_probs(dict(value))
@@ -475,6 +503,48 @@ def _words_for(ntips, thorough):
     return {"words": list("ACGTNRY-"), "dup": 40} if thorough else {"words": list("ACGTNRY-"), "stride": 29, "dup": 40}
 
 
+IUPAC = "ACGTRYMKSWBDHVN-?"
+RENAME = {"a": "Human", "b": "t10", "c": "t2", "d": "Zebra_fish", "e": "x.1"}
+
+
+def _rename(case, mapping):
+    """the same case with other tip names (sorting order, digits, punctuation)"""
+    import re
+    c = dict(case)
+    c["tree"] = re.sub(r"(?<=[(,])([a-e])(?=[:,)])", lambda m: mapping[m.group(1)], case["tree"])
+
+    def sc(scope):
+        d = dict(scope)
+        if "edge" in d:
+            d["edge"] = mapping.get(d["edge"], d["edge"])
+        if "edges" in d:
+            d["edges"] = [mapping.get(e, e) for e in d["edges"]]
+        return d
+    c["rules"] = [[p, sc(s_), v] for p, s_, v in case.get("rules", [])]
+    if "updates" in case:
+        c["updates"] = [[[p, sc(s_), v] for p, s_, v in u] for u in case["updates"]]
+    return c
+
+
+def _random_tree(rnd, ntips):
+    """random rooted shape with polytomies, tips t1..tn, internal nodes n1.., lengths in the newick"""
+    parts = [(f"t{i + 1}", 1) for i in range(ntips)]
+    k = 0
+    lens = lambda: rnd.choice([0.0, 1e-3, 0.1, 1.5, round(rnd.uniform(0.001, 2.5), 4)])
+    while len(parts) > 1:
+        if len(parts) <= 3 and rnd.random() < 0.5:
+            take = len(parts)
+        else:
+            take = min(len(parts), rnd.choice([2, 2, 2, 3]))
+        rnd.shuffle(parts)
+        grp, parts = parts[:take], parts[take:]
+        if not parts:
+            return "(" + ",".join(f"{g}:{lens()}" for g, _ in grp) + ");"
+        k += 1
+        parts.append(("(" + ",".join(f"{g}:{lens()}" for g, _ in grp) + f")n{k}", sum(w for _, w in grp)))
+    return parts[0][0] + ";"          # not reached
+
+
 def gen_nucleotide(tier, seed):
     rnd = random.Random(seed)
     thorough = tier == "thorough"
@@ -494,13 +564,16 @@ def gen_nucleotide(tier, seed):
                 grid = PARAM_GRID[model]
                 pis = [None] if MODELS[model][2] == "equal" else PI_NUC
                 combos = [(p, q) for p in grid for q in pis]
-                if not thorough or ntips >= 4:
+                if not thorough or ntips >= 5:
                     combos = [combos[i % len(combos)]]
+                elif ntips == 4:
+                    combos = [combos[(i + j * 5) % len(combos)] for j in range(min(2, len(combos)))]
                 elif len(combos) > 4:
                     combos = [combos[(i + j * 5) % len(combos)] for j in range(4)]
                 for params, pi in combos:
                     i += 1
                     via = "tree" if (i % 5 == 0 and all(v > 0 for v in la.values())) else "rule"
+                    anonymous = via == "tree" and i % 10 == 0 and sh != "unary"
                     if sh == "unary":
                         tr = "(a:%s,(b:%s)n1:%s);" % (la["a"] or 1, la["b"] or 1, la["n1"] or 1)
                     else:
@@ -517,7 +590,47 @@ def gen_nucleotide(tier, seed):
                             p0 = sorted(params)[i % len(params)]
                             upd.append([p0, {}, round(params[p0] * 1.7 + 0.1, 4)])
                         case["updates"] = [upd]
+                    if i % 4 == 1:
+                        case["aln_first"] = True
+                    if i % 6 == 2:
+                        case["aln_class"] = "standard"
+                    if i % 8 == 3:
+                        case["seq_order"] = sorted("abcde"[:ntips], reverse=True)
+                    if anonymous:       # unnamed internal nodes: lengths come with the tree, no rule names them
+                        import re
+                        case["tree"] = re.sub(r"\)n\d+", ")", case["tree"])
+                        case["updates"] = [[["length", {"edge": "a"}, 0.33]]]
+                    if i % 11 == 4 and not anonymous and sh != "unary":
+                        case = _rename(case, RENAME)
+                        case.pop("seq_order", None)
                     yield case
+    if thorough:
+        # beyond the frontier: random trees on 6-8 tips, random lengths, random columns over every IUPAC symbol
+        for j in range(1200):
+            ntips = rnd.choice([6, 7, 8])
+            tr = _random_tree(rnd, ntips)
+            model = NUC_MODELS[j % len(NUC_MODELS)]
+            names = MODELS[model][3]
+            params = {p: round(math.exp(rnd.uniform(math.log(0.05), math.log(20))), 4) for p in names}
+            w = [rnd.uniform(0.05, 1) for _ in range(4)]
+            pi = {b: round(x / sum(w), 6) for b, x in zip("ACGT", w)}
+            pi["T"] = round(1 - pi["A"] - pi["C"] - pi["G"], 6)
+            cols = [[rnd.choice(IUPAC if rnd.random() < 0.4 else "ACGT") for _ in range(ntips)] for _ in range(60)]
+            case = {"model": model, "tree": tr, "len_via": "tree", "rules": _rules({}, params, "tree"),
+                    "aln": {"columns": cols + cols[:7]}}
+            if MODELS[model][2] != "equal":
+                case["pi"] = pi
+            yield case
+    # every IUPAC symbol, small trees
+    for j, (tr, nt) in enumerate((("(a:0.3,b:0.1);", 2), ("(a:0.1,b:0.0,c:0.25);", 3), ("((a:0.1,b:0.3)n1:0.2,c:0.4);", 3))):
+        for model in NUC_MODELS:
+            case = {"model": model, "tree": tr, "len_via": "rule",
+                    "rules": _rules({n["name"]: n["length"] for n in S.nodes(S.parse_newick(tr))[1:]},
+                                    PARAM_GRID[model][0]),
+                    "aln": {"words": list(IUPAC), "stride": 1 if (nt == 2 or thorough) else 5, "dup": 20}}
+            if MODELS[model][2] != "equal":
+                case["pi"] = PI_NUC[1 + j % 2]
+            yield case
 
 
 def contract_nucleotide(case):
@@ -807,7 +920,7 @@ def gen_protein(tier, seed):
                 case = {"model": model, "tree": tr, "rules": _rules(la, {}), "aln": aln}
                 if pi:
                     case["pi"] = pi
-                    case["pi_via"] = "lf" if i % 2 else "model"
+                    case["pi_via"] = "lf"
                 if i % 2 == 0:
                     case["updates"] = [[["length", {"edge": "a"}, 2.5]]]
                 yield case
